@@ -231,8 +231,8 @@ func ruleDecodeWidth(p *Prog, r *Report) {
 		typ  string
 		term string // regexp on the symbolic term of the stored element
 	}
-	in0 := `p0\.input\[[^\]]*\]` // a byte of the input
-	sl := `p0\.input\[[^\]]*\]`  // a sub-slice of the input (symbolic bounds are rendered as [+] or [a:b])
+	in0 := `p0\.input(\[[^\]]*\])+` // a byte of the input (possibly through a sub-slice)
+	sl := `p0\.input\[[^\]]*\]`     // a sub-slice of the input (symbolic bounds are rendered as [+] or [a:b])
 	_ = sl
 	bs := []branch{
 		{"parseInt", 1, "int8", `^int8\(` + in0 + `\)$`},
@@ -247,11 +247,17 @@ func ruleDecodeWidth(p *Prog, r *Report) {
 		{"parseFloat", 8, "float64", `^Float64frombits\(Uint64\(.*\)\)$`},
 	}
 	for _, b := range bs {
+		key := fmt.Sprintf("%s:hsms.%s:width=%d", rule, b.fn, b.k)
+		if pf := p.Func("hsms", "(*parser)."+b.fn); pf == nil || !callsFactoryDirectly(pf) {
+			// the per-type decoder has another name or shape: decide from the
+			// item decoder itself, evaluated on an item header of that format
+			widthFromItemDecoder(p, r, rule, key, b.fn, b.k, b.typ, b.term)
+			continue
+		}
 		fn := p.MustFunc(r, "hsms", "(*parser)."+b.fn)
 		if fn == nil {
 			continue
 		}
-		key := fmt.Sprintf("%s:hsms.%s:width=%d", rule, b.fn, b.k)
 		pos := p.Pos(fn.Pos())
 		in := decoderInterp(p)
 		in.Symbolic = true
@@ -806,4 +812,142 @@ func messageBuilders(p *Prog, fn *ssa.Function) map[*ssa.Function]bool {
 	}
 	walk(fn, 0)
 	return out
+}
+
+func callsFactoryDirectly(fn *ssa.Function) bool {
+	for _, b := range fn.Blocks {
+		for _, instr := range b.Instrs {
+			if c, ok := instr.(*ssa.Call); ok {
+				if sc := c.Common().StaticCallee(); sc != nil && isFactory(sc) {
+					return true
+				}
+			}
+		}
+	}
+	return false
+}
+
+// decodeItemRun evaluates (*parser).parseMessageText on an input whose item
+// header at offset 16 is the given format code with one length byte and a
+// payload of n elements of width k; the payload bytes stay symbolic. It
+// returns the factory reached, its arguments and the elements of the value
+// slice handed to it.
+func decodeItemRun(p *Prog, code int, k, n int64) (fac string, args []Val, elems []Val, ok bool) {
+	res, ok := decodeItemBytes(p, code, n*k, false)
+	return res.fac, res.args, res.elems, ok && res.fac != ""
+}
+
+type decodeResult struct {
+	fac     string
+	args    []Val
+	elems   []Val
+	endPos  Val   // p.pos when parseMessageText returns
+	success []Val // the ok result of every reachable return
+}
+
+// decodeItemBytes is decodeItemRun for a payload of L bytes (L need not be a
+// multiple of the element width).
+func decodeItemBytes(p *Prog, code int, L int64, concrete bool) (res decodeResult, ok bool) {
+	fn := p.Func("hsms", "(*parser).parseMessageText")
+	if fn == nil {
+		return res, false
+	}
+	const at = 16
+	in := decoderInterp(p)
+	in.Symbolic = true
+	in.InitBind["p0.pos"] = int64Val(at)
+	in.PathBind["p0.msgLength"] = int64Val(at - 4 + 2 + L)
+	in.PathBind["len(p0.input)"] = int64Val(at + 2 + L)
+	in.PathBind[fmt.Sprintf("p0.input[%d]", at)] = int64Val(int64(code)<<2 | 1)
+	in.PathBind[fmt.Sprintf("p0.input[%d]", at+1)] = int64Val(L)
+	for i := int64(0); concrete && i < L; i++ {
+		// payload values that every format accepts (where only the position matters)
+		in.PathBind[fmt.Sprintf("p0.input[%d]", at+2+i)] = int64Val(i % 2)
+	}
+	in.OnCall = func(call *ssa.Call, callee *ssa.Function, a []Val, fr *frame) {
+		if isFactory(callee) && callee.Name() != "NewEmptyItemNode" {
+			res.fac = callee.Name()
+			res.args = append([]Val{}, a...)
+			res.elems = nil
+			if len(a) > 0 && a[len(a)-1].K == KSlice && a[len(a)-1].Len >= 0 {
+				for i := 0; i < a[len(a)-1].Len; i++ {
+					res.elems = append(res.elems, in.Elem(a[len(a)-1], i, types.NewInterfaceType(nil, nil)))
+				}
+			}
+		}
+	}
+	out := in.Run(fn, defaultArgs(fn), nil)
+	if len(in.Stuck) > 0 {
+		return res, false
+	}
+	for _, rv := range out.Frame.ReturnVals() {
+		if len(rv) == 2 {
+			res.success = append(res.success, rv[1])
+		}
+	}
+	res.endPos = in.Load("p0.pos", types.Typ[types.Int])
+	return res, true
+}
+
+// widthFromItemDecoder decides one width obligation from decodeItemRun.
+func widthFromItemDecoder(p *Prog, r *Report, rule, key, family string, k int64, typ, term string) {
+	pos := ""
+	if fn := p.Func("hsms", "(*parser).parseMessageText"); fn != nil {
+		pos = p.Pos(fn.Pos())
+	}
+	node := map[string]string{"parseInt": "IntNode", "parseUint": "UintNode", "parseFloat": "FloatNode"}[family]
+	code := -1
+	for _, f := range e5Formats {
+		if f.Node == node && int64(f.ByteSz) == k {
+			code = f.Code
+		}
+	}
+	const n = 3
+	fac, args, elems, ok := decodeItemRun(p, code, k, n)
+	if code < 0 || !ok {
+		r.unk(rule, key, pos, "neither (*parser)."+family+" with a direct factory call nor an evaluable item decoder found")
+		return
+	}
+	re := regexp.MustCompile(term)
+	var probs []string
+	if fac != "New"+node {
+		probs = append(probs, fmt.Sprintf("format code %#o builds %s, expected New%s", code, fac, node))
+	}
+	if !(len(args) > 0 && args[0].K == KInt && args[0].I.Int64() == k) {
+		probs = append(probs, fmt.Sprintf("the factory is called with byteSize %s for the %d-byte format", args[0], k))
+	}
+	if len(elems) != n {
+		probs = append(probs, fmt.Sprintf("a payload of %d elements yields %d values", n, len(elems)))
+	}
+	for i, e := range elems {
+		if e.K != KIface || e.Inner == nil {
+			probs = append(probs, "an element of unknown type/value is stored ("+e.String()+")")
+			continue
+		}
+		tn := types.TypeString(e.T, nil)
+		if tn == "byte" {
+			tn = "uint8"
+		}
+		t, _ := termOf(*e.Inner)
+		t = strings.ReplaceAll(t, "byte(", "uint8(")
+		for _, w := range widenings[family] {
+			if tn == w && strings.HasPrefix(t, w+"(") && strings.HasSuffix(t, ")") && re.MatchString(t[len(w)+1:len(t)-1]) {
+				tn, t = typ, t[len(w)+1:len(t)-1]
+			}
+		}
+		switch {
+		case tn != typ:
+			probs = append(probs, fmt.Sprintf("dynamic type %s handed to the factory for the %d-byte format (expected %s, or one widening of it)", tn, k, typ))
+		case !re.MatchString(t):
+			probs = append(probs, fmt.Sprintf("value %q is not the %d-byte big-endian read reinterpreted as %s without further arithmetic", t, k, typ))
+		case !strings.Contains(t, fmt.Sprintf("p0.input[%d", 18+int64(i)*k)):
+			probs = append(probs, fmt.Sprintf("element %d is %q: not read from its own offset %d of the payload", i, t, int64(i)*k))
+		}
+	}
+	if len(probs) > 0 {
+		r.bad(rule, key, pos, strings.Join(uniq(probs), "; "))
+	} else {
+		t, _ := termOf(*elems[0].Inner)
+		r.ok(rule, key, pos, fmt.Sprintf("evaluated on an item of %d elements with symbolic payload: element i is the %s value read at its own offset, e.g. %s", n, typ, t))
+	}
 }
